@@ -433,6 +433,16 @@ pub fn run(ctx: &Ctx) -> i32 {
             if let Some(c) = super::c26_eof::gen_valid(rng, true, 4) {
                 ic.push(c);
             }
+            // jumps into immediates: whatever validation accepts of these is executed
+            for _ in 0..4 {
+                let il = crate::eofgen::gen_immediate_landing(rng);
+                if revm::interpreter::analysis::validate_raw_eof_inner(Bytes::copy_from_slice(&il), Some(revm::interpreter::analysis::CodeType::ReturnOrStop)).is_ok() {
+                    rep.count("jump_into_immediate_accepted_by_validation");
+                    rt.insert(0, il);
+                } else {
+                    rep.count("jump_into_immediate_rejected_by_validation");
+                }
+            }
             rep.eval();
             breadcrumb(|| json!({"mode": "eof", "runtime": rt.iter().map(|c| hex(c)).collect::<Vec<_>>(), "initcode": ic.iter().map(|c| hex(c)).collect::<Vec<_>>()}));
             super::c26_eof::exec_accepted(rng, rep, "C25", &rt, &ic);
